@@ -2,6 +2,7 @@
 from __future__ import annotations
 
 import logging
+import math
 import warnings
 
 import numpy as np
@@ -57,3 +58,77 @@ def setup(m, Tn, u=1.0):
 def settings(thick=5.0):
     import WallGo
     return WallGo.WallSolverSettings(bIncludeOffEquilibrium=False, meanFreePathScale=50.0, wallThicknessGuess=thick)
+
+
+# ---------------------------------------------------------------- two-field xSM-like model (GeV-like numbers: Tn = 100 u)
+
+def xsm_model(u=1.0, perm=(0, 1), signs=(1.0, 1.0), shift=(0.0, 0.0)):
+    """Tree-level Z2 singlet extension with O(T^2) thermal masses (high-T expansion): V(h, s, T), every dimensionful
+    parameter multiplied by the unit factor u.  User fields y_j = signs_j * x_perm[j] + shift_j*u with x = (h, s)."""
+    import WallGo
+    from WallGo import Fields
+    v0, mh1, mh2 = 246.0, 125.0, 120.0
+    MW, MZ, Mt = 80.379, 91.1876, 173.0
+    lHS, lSS = 0.9, 1.0
+    lHH = 0.5 * mh1 ** 2 / v0 ** 2
+    muHsq = -0.5 * mh1 ** 2 * u ** 2
+    muSsq = (mh2 ** 2 - 0.5 * lHS * v0 ** 2) * u ** 2
+    g2 = 2 * MW / v0
+    g1 = g2 * math.sqrt((MZ / MW) ** 2 - 1)
+    yt = math.sqrt(2) * Mt / v0
+    cH = (3 * g2 ** 2 + g1 ** 2 + 4 * yt ** 2 + 8 * lHH) / 16 + lHS / 24
+    cS = lHS / 6 + lSS / 4
+    perm_, signs_, shift_ = list(perm), np.asarray(signs, float), np.asarray(shift, float) * u
+
+    class XsmPotential(WallGo.EffectivePotential):
+        fieldCount = 2
+        effectivePotentialError = 1e-15
+
+        def evaluate(self, fields, temperature):
+            y = np.atleast_2d(np.asarray(Fields(fields), float))
+            x = np.empty_like(y)
+            x[:, perm_] = (y - shift_) / signs_
+            h, s = x[:, 0], x[:, 1]
+            T = np.asarray(temperature)
+            return (0.5 * (muHsq + cH * T ** 2) * h ** 2 + 0.25 * lHH * h ** 4 + 0.5 * (muSsq + cS * T ** 2) * s ** 2
+                    + 0.25 * lSS * s ** 4 + 0.25 * lHS * h ** 2 * s ** 2 - 107.75 * math.pi ** 2 / 90 * T ** 4)
+
+    class XsmModel(WallGo.GenericModel):
+        fieldCount = 2
+
+        def __init__(self):
+            self.potential = XsmPotential()
+
+        def getEffectivePotential(self):
+            return self.potential
+
+    def to_user(x):
+        x = np.asarray(x, float)
+        return (signs_ * x[perm_] + shift_).tolist()
+    m = XsmModel()
+    m.to_user = to_user
+    return m
+
+
+def new_xsm_manager(u=1.0, gridM=20, errTol=1e-3, TnOverU=100.0, **relabel):
+    import WallGo
+    from WallGo import Fields
+    warnings.simplefilter("ignore")
+    m = WallGo.WallGoManager()
+    m.setVerbosity(logging.ERROR)
+    m.config.configGrid.spatialGridSize = gridM
+    m.config.configEOM.errTol = errTol
+    model = xsm_model(u=u, **relabel)
+    m.registerModel(model)
+    setup_xsm(m, model, u, TnOverU)
+    return m, model
+
+
+def setup_xsm(m, model, u, TnOverU=100.0):
+    import WallGo
+    from WallGo import Fields
+    sc = np.abs(np.asarray(model.to_user([50.0 * u, 50.0 * u])) - np.asarray(model.to_user([0.0, 0.0])))
+    m.setupThermodynamicsHydrodynamics(
+        WallGo.PhaseInfo(temperature=TnOverU * u, phaseLocation1=Fields(model.to_user([0.0, 105.0 * u])),
+                         phaseLocation2=Fields(model.to_user([195.0 * u, 0.0]))),
+        WallGo.VeffDerivativeSettings(temperatureVariationScale=10.0 * u, fieldValueVariationScale=sc.tolist()))
